@@ -31,10 +31,10 @@ const c12StringsPerCase = 100
 
 func (p *c12) ID() string { return "C12" }
 func (p *c12) Rule() string {
-	return fmt.Sprintf("a case = %d strings of valid UTF-8 without NUL (biased to quotes, backslash runs incl. trailing ones, parentheses, '@', newlines, control and non-BMP characters). Each string s (with a partner t) is written as goflow's own quoted literal and evaluated alone, next to other literals/values, as function argument and as index key, through Evaluator.Template and through Evaluator.Expression (no template scanner); it is embedded in body1@(E)body2 for the scanner; and a body text whose every '@' is doubled or followed by neither '(' nor an allowed top-level name is passed through Evaluator.Template. A string is non-trivial when it contains one of \" \\ ( ) @; a case is non-trivial when it holds such a string; distinct = distinct case contents.", c12StringsPerCase)
+	return fmt.Sprintf("a case = %d strings of valid UTF-8 without NUL (biased to quotes, backslash runs incl. trailing ones, parentheses, '@', newlines, control and non-BMP characters). Each string s (with a partner t) is written as goflow's own quoted literal and evaluated alone, next to other literals/values, as function argument and as index key, through Evaluator.Template and through Evaluator.Expression (no template scanner); it is embedded in body1@(E)body2 for the scanner; and a body text whose every '@' is doubled or followed by neither '(' nor an allowed top-level name is passed through Evaluator.Template. Each case adds %d strings of parentheses of mostly one kind and %d long strings (0.5-12 KB of 2/3/4-byte characters at every alignment), and embeds the literals in body1@(E)body2 evaluated through Evaluator.Template and excellent.VisitTemplate, with body texts whose parentheses pair up with the unpaired ones inside the literals. A string is non-trivial when it contains one of \" \\ ( ) @; a case is non-trivial when it holds such a string; distinct = distinct case contents.", c12StringsPerCase, c12ParenStringsPerCase, c12LongStringsPerCase)
 }
 func (p *c12) Directed() []string {
-	return []string{"pool", "body-text", "scanner", "known:trailing-backslash", "shared-evaluator"}
+	return []string{"pool", "body-text", "scanner", "known:trailing-backslash", "shared-evaluator", "parens-in-literal-and-text", "long-texts"}
 }
 func (p *c12) NumGenerated(tier string) int {
 	if tier == "thorough" {
@@ -53,7 +53,9 @@ func (p *c12) Floors(tier string) []string {
 	return []string{"strings.total", "strings.nontrivial", "strings.ending_in_backslash", "strings.with_quote", "strings.non_bmp",
 		"clause.a.body_passthrough", "a.texts_with_double_at", "a.texts_with_lone_at",
 		"clause.b.template_alone", "clause.b.expression_alone", "clause.c.template_concat", "clause.c.expression_concat",
-		"clause.c.template_funcarg", "clause.c.template_indexkey", "clause.d.scanner_tokens"}
+		"clause.c.template_funcarg", "clause.c.template_indexkey", "clause.d.scanner_tokens", "clause.d.visit_template_tokens",
+		"clause.e.embedded_template", "e.unpaired_parentheses_of_literal_paired_by_text", "e.template_starts_with_expression_and_ends_on_parenthesis",
+		"e.templates_over_512_bytes", "e.templates_over_4096_bytes", "strings.parenthesis_class", "strings.long_with_multibyte_characters"}
 }
 
 func (p *c12) ExtraEvidence(tier string, counters map[string]int64) map[string]any {
@@ -335,6 +337,10 @@ func (p *c12) Run(c fw.Case) fw.Result {
 		k.directedBodies()
 	case "scanner":
 		k.directedScanner()
+	case "parens-in-literal-and-text":
+		k.directedParens()
+	case "long-texts":
+		k.directedLong()
 	}
 	for i, s := range strs {
 		t := strs[(i+1)%len(strs)]
@@ -342,6 +348,10 @@ func (p *c12) Run(c fw.Case) fw.Result {
 			t = fw.Pick(r, []string{"", "b", `"`, "x\"y", "(", ")", "@", " ", "é", "\n"})
 		}
 		k.checkString(s, t, c.Directed != "")
+	}
+	if c.Directed == "" {
+		// the strings of the parenthesis and long classes and clause (e), from a stream of their own (c12_embed.go)
+		strs = append(strs, k.extras(fw.NewRand(c.Seed, "C12/extra", c.Index), strs)...)
 	}
 	res.Fingerprint = c.ID() + "\x1e" + strings.Join(strs, "\x1f")
 	if c.Directed != "" {
@@ -593,6 +603,7 @@ func (k *c12run) checkScanner(b1, e, b2 string, repaired func() (string, bool)) 
 	k.res.Count("clause.d.scanner_tokens", 1)
 	ok, toks, want := k.scannerOK(b1, e, b2)
 	if ok {
+		k.checkVisit(b1, e, b2, want)
 		return
 	}
 	class := "other"
